@@ -28,6 +28,7 @@ RULE = (
     "Non-trivial = fault at chunk index >= 1 (data already written) with >= 1 neighbour. Distinct by (digest of "
     "the outer case, fault)."
     " Also (part wide): ONE table of more than 2**17 rows given as a single chunk (frame, dict of arrays, one-chunk iterable) with a duplicated pixel whose two copies sit on either side of every power-of-two row number 2**10..2**17, of 10**3..10**5 and of generated row numbers - refused, nothing recognised."
+    " Destination kind alias: the destination is a hard or soft link to a neighbour collection (it already holds a cooler: only the neighbours - the collection under its own name included - are judged)."
     " Also: destination '/' in append mode beside collections in sub-groups; a fault in the very last step (metadata that cannot be serialised, after all chunks and the indexes were written)."
 )
 ASSUMPTIONS = [
@@ -51,14 +52,18 @@ def cases(draw):
     cuts = sorted(draw(st.lists(st.integers(0, len(rows)), min_size=m - 1, max_size=m - 1)))
     chunks = [c[:5] for c in gen.split_at(rows, cuts)]
     producer = draw(st.sampled_from(["ordered", "ordered", "unordered", "merge", "coarsen", "cli-load"]))
-    destkind = draw(st.sampled_from(["newfile", "multi", "multi", "plain"]))
+    destkind = draw(st.sampled_from(["newfile", "multi", "multi", "plain", "alias"]))
     neigh = draw(st.lists(st.sampled_from(["/", "/a", "/g/b"]), min_size=1, max_size=3, unique=True)) if destkind != "newfile" else []
     dest = draw(st.sampled_from(["/", "/grp"])) if destkind == "newfile" else \
         (draw(st.sampled_from(["/new", "/g/new"] + ([] if "/" in neigh else ["/", "/"]))) if destkind == "multi"
+         else draw(st.sampled_from(["/alias", "/g/alias"])) if destkind == "alias"
          else draw(st.sampled_from(["/plain", "/g/plain"])))
+    if destkind == "alias" and neigh == ["/"]:
+        neigh = ["/a"]          # the alias points at a non-root neighbour
     nrows = draw(gen.pixels(n, symmetric, count=st.integers(1, 9), max_nnz=6))
     return {"part": "faults", "bt": bt, "symmetric": symmetric, "chunks": chunks, "producer": producer,
             "destkind": destkind, "neighbours": sorted(neigh), "dest": dest, "neighbour_rows": nrows,
+            "alias_soft": draw(st.booleans()),
             "copy_status": draw(st.sampled_from(["unique", "duplex"])), "hard": draw(st.integers(0, 7)) == 0, "mergebuf": draw(st.sampled_from([1, 2, 4])), "k": draw(st.integers(2, 3)), "chunksize": draw(st.sampled_from([1, 2, 3]))}
 
 
@@ -115,6 +120,13 @@ class Setup:
                 g = f.create_group(case["dest"])
                 g.attrs["what"] = "not a cooler"
                 g.create_dataset("stuff", data=np.arange(4))
+        if case["destkind"] == "alias":
+            # the destination is a second NAME (hard or soft link) of a neighbour collection: it "already holds a cooler", so
+            # only the neighbours are judged after a failed re-creation there - in particular the collection under its own name
+            from cooler.fileops import ln
+
+            target = next(g for g in case["neighbours"] if g != "/")
+            call("ln (alias of a neighbour)", ln, self.file + "::" + target, self.file + "::" + case["dest"], soft=bool(case.get("alias_soft")))
         if os.path.exists(self.file):
             shutil.copy(self.file, self.pristine)
         self.digests = {}
@@ -176,12 +188,17 @@ class Setup:
         from cooler.fileops import is_cooler, list_coolers
 
         case = self.case
-        r = call(f"is_cooler(dest) after {label}", is_cooler, self.dest_uri)
-        check(r is False, f"after {label}: the destination is recognised as a cooler")
+        alias = case["destkind"] == "alias"
+        if not alias:
+            r = call(f"is_cooler(dest) after {label}", is_cooler, self.dest_uri)
+            check(r is False, f"after {label}: the destination is recognised as a cooler")
         if os.path.exists(self.file) and h5py.is_hdf5(self.file):
             listed = call(f"list_coolers after {label}", list_coolers, self.file)
-            check(case["dest"] not in listed, f"after {label}: the destination {case['dest']} is listed as a cooler ({listed})")
-            check(sorted(listed) == sorted(case["neighbours"]), f"after {label}: listing {listed}, neighbours are {case['neighbours']}")
+            if alias:
+                check(set(case["neighbours"]) <= set(listed), f"after {label}: listing {listed}, neighbours are {case['neighbours']}")
+            else:
+                check(case["dest"] not in listed, f"after {label}: the destination {case['dest']} is listed as a cooler ({listed})")
+                check(sorted(listed) == sorted(case["neighbours"]), f"after {label}: listing {listed}, neighbours are {case['neighbours']}")
             with h5py.File(self.file, "r") as f:
                 for g in case["neighbours"]:
                     check(self._ndigest(f, g) == self.digests[g], f"after {label}: neighbour collection {g} changed")
